@@ -226,6 +226,15 @@ def st_packet(rng, kind, dev, ifid, tag):
         ty, d = 0x0301, proto.cm_payload(desc=b"dev%d-%d" % (dev, tag), serial=b"%d" % tag, uptime=tag)
     elif kind == "if":
         ty, d = 0x0302, proto.if_payload(stream_ids=bytes([tag % 256]), if_id=ifid, rx=tag)
+    elif kind == "other":
+        # a status message of another kind (config status, events, vendor status, unknown) whose first four payload bytes spell `ifid`
+        ty = 0x0300 | [0x03, 0x04, 0x05, 0xFF, 0x7B][tag % 5]
+        d = proto.be(ifid, 4) + bytes([tag % 256, 1, 2, 3] * 9)
+    elif kind == "badif":
+        # an interface status message that the validator rejects (status byte 3): typed invalid, must be ignored
+        g = bytearray(proto.if_payload(stream_ids=bytes([tag % 256]), if_id=ifid, rx=tag))
+        g[29] = 3
+        ty, d = 0x0302, bytes(g)
     else:
         ty, d = 0x0101, proto.can_payload(b"\x01\x02", ident=tag)
     return Pkt(ty, d, ver=1, dev=dev, stream=tag % 256, seq=tag % 65536, ts=tag, ifid=ifid if kind == "data" else 0, vend=tag % 65536)
@@ -244,13 +253,14 @@ def gen_c16(tier, rng):
         letters.append(("rmdev", d, 0))
         letters.append(("rmif", d, ifs[0]))
     letters.append(("data", devs[0], 5))
+    letters.append(("other", devs[0], ifs[0]))
     letters.append(("clear", 0, 0))
     probes = ["st s idx %d" % d for d in devs + [9]] + ["st s ifidx %d %d" % (d, i) for d in devs[:2] for i in ifs + [99]]
 
     def script(seq):
         ops = []
         for n, (k, d, i) in enumerate(seq):
-            if k in ("cm", "if", "data"):
+            if k in ("cm", "if", "data", "other", "badif"):
                 ops.append(st_packet(rng, k, d, i, 100 + n).line("p%d" % n))
                 ops.append("st s update p%d" % n)
             elif k == "rmdev":
@@ -277,11 +287,12 @@ def gen_c16(tier, rng):
             r = rng.random()
             d = rng.choice(devs + [65535, 0])
             i = rng.choice(ifs + [0, 4294967295])
-            seq.append(("cm", d, 0) if r < 0.25 else ("if", d, i) if r < 0.6 else ("data", d, i) if r < 0.65 else ("rmdev", d, 0) if r < 0.8
+            seq.append(("cm", d, 0) if r < 0.25 else ("if", d, i) if r < 0.55 else ("other", d, i) if r < 0.6 else ("badif", d, i) if r < 0.62
+                       else ("data", d, i) if r < 0.65 else ("rmdev", d, 0) if r < 0.8
                        else ("rmif", d, i) if r < 0.97 else ("clear", 0, 0))
         ops = []
         for n, (k, d, i) in enumerate(seq):
-            if k in ("cm", "if", "data"):
+            if k in ("cm", "if", "data", "other", "badif"):
                 ops.append(st_packet(rng, k, d, i, 1000 + n).line("p%d" % n))
                 ops.append("st s update p%d" % n)
             elif k == "rmdev":
